@@ -1,12 +1,15 @@
 // Harness exprsyntax decides C09: template syntax (literals, escapes, quotes,
 // nesting) parses as documented.
 //
-// Four enumerations (see Rule): (A) literal/escape round trip of every string
+// Five enumerations (see Rule): (A) literal/escape round trip of every string
 // over a small alphabet in two escaping styles; (B) expression trees printed
 // with every whitespace/quoting variant (choice points of the mc explorer)
 // evaluated with recording functions registered in a private KeyBuilder;
 // (C) every single-character deletion / insertion in printed templates and
-// (D) every raw string over a syntax alphabet, both judged by an independent
+// (E) trees whose leaves need escaping inside call arguments (backslash,
+// braces, quote, blank, control characters) or are unquoted non-ASCII words,
+// printed with the per-pass escaping rule; (D) every raw string over a syntax
+// alphabet, C and D judged by an independent
 // three-valued reading of the statement (value / must be a compile error /
 // not settled by the statement). Nothing may panic.
 package main
@@ -195,6 +198,7 @@ type tierParams struct {
 	mutIns       []string
 	mutBound     int // mutate every print with at most this many deviations (depth-1 trees)
 	mutDepth2    bool
+	escBound     int // deviation bound for the depth-2 trees of part E with two leaves (-1: every combination)
 	rawAlphabet  []string
 	rawLen       int
 	rawAlphabet2 []string
@@ -203,19 +207,20 @@ type tierParams struct {
 
 func params(quick bool) tierParams {
 	base := []string{"a", " ", "{", "}", `\`, `"`, "n", "\n", "é"}
-	wide := append(append([]string{}, base...), "\t", "t", "0", "\r")
+	// à = C3 A0, Å = C3 85, 😅 = F0 9F 98 85: encodings containing the bytes 0xA0 / 0x85
+	wide := append(append([]string{}, base...), "\t", "t", "0", "\r", "à", "Å", "😅")
 	raw := []string{"{", "}", `"`, " ", "f", "0", `\`}
 	rawNoBs := []string{"{", "}", `"`, " ", "f", "0", "\t"}
 	if quick {
 		return tierParams{litAlphabet: base, litLen: 5, litAlphabet2: wide, litLen2: 3,
 			seps: []string{" ", "  ", "\t", "\n"}, sepBits: []int{0, vkSepDouble, vkSepTab, vkSepNewline}, d1Bound3: 3,
 			b21: 2, b22: 2, b31: 1, mutIns: []string{"{", "}", `"`, `\`, " ", "q"}, mutBound: 0,
-			rawAlphabet: raw, rawLen: 7, rawAlphabet2: rawNoBs, rawLen2: 7}
+			escBound: -1, rawAlphabet: raw, rawLen: 7, rawAlphabet2: rawNoBs, rawLen2: 7}
 	}
 	return tierParams{litAlphabet: base, litLen: 6, litAlphabet2: wide, litLen2: 5,
 		seps: []string{" ", "  ", "\t", "\n"}, sepBits: []int{0, vkSepDouble, vkSepTab, vkSepNewline},
 		d1Bound3: -1, b21: 4, b22: 3, b31: 2, fullDepth2: true, fullBound: 1, mutIns: []string{"{", "}", `"`, `\`, " ", "q", "\t"}, mutBound: 1, mutDepth2: true,
-		rawAlphabet: raw, rawLen: 9, rawAlphabet2: rawNoBs, rawLen2: 8}
+		escBound: -1, rawAlphabet: raw, rawLen: 9, rawAlphabet2: rawNoBs, rawLen2: 8}
 }
 
 func worker(w *runner.W) {
@@ -343,6 +348,60 @@ func worker(w *runner.W) {
 		}
 	}
 
+	// ---- E: escapes inside call arguments, unquoted non-ASCII words (S1 + S2)
+	escCase := func(t *etree, bound int) bool {
+		if !own() {
+			return true
+		}
+		if w.Expired() {
+			return false
+		}
+		ex := mc.New(bound)
+		for ex.Next() {
+			p := &eprinter{ex: ex}
+			tpl, want := p.top(t)
+			ex.EndExecution()
+			vn := eVariantName(p.used)
+			w.SetCase(func() any { return Case{Kind: "expect", Template: tpl, Want: want} })
+			ok := c.expect(tpl, want, "C09/argument-text/"+t.label, "tree "+t.String()+", variant "+vn)
+			w.Eval(ok)
+			w.Add("escape_tree_prints", 1)
+			w.Outcome("esc", want, vn)
+			if w.WantSample() && t.depth() == 2 && p.used&evQuoted != 0 && strings.Contains(tpl, `\\\\`) && len(tpl) < 120 {
+				w.Sample(map[string]string{"tree": t.String(), "template": tpl, "value": want})
+			}
+		}
+		w.Add("escape_trees", 1)
+		w.Add("choice_points", ex.ChoicePoints)
+		return true
+	}
+	if part == "all" || part == "escapes" {
+		el := eLeaves()
+		ok := true
+		each := func(t *etree, bound int) {
+			if ok && !escCase(t, bound) {
+				ok = false
+			}
+		}
+		for _, x := range el {
+			if x.k == eLookup { // `{voilà}` on its own
+				each(x, -1)
+			}
+			each(eCallOf("f", x), -1)
+			each(eCallOf("f", eCallOf("g", x)), -1)
+			each(eCallOf("f", eCallOf("g", eCallOf("f", x))), -1)
+			for _, y := range el {
+				each(eCallOf("f", x, y), -1)
+				each(eCallOf("f", eCallOf("g", x), y), tp.escBound)
+				each(eCallOf("f", y, eCallOf("g", x)), tp.escBound)
+				each(eCallOf("f", eCallOf("g", x, y)), tp.escBound)
+			}
+		}
+		if !ok {
+			return
+		}
+	}
+
 	// ---- D: raw strings over the syntax alphabet
 	rawCase := func(s string) bool {
 		if !own() {
@@ -411,18 +470,23 @@ func main() {
 			if tp.d1Bound3 >= 0 {
 				d1 = fmt.Sprintf("at most %d non-default choices", tp.d1Bound3)
 			}
+			eb := "every combination"
+			if tp.escBound >= 0 {
+				eb = fmt.Sprintf("at most %d non-default choices", tp.escBound)
+			}
 			full := "not enumerated"
 			if tp.fullDepth2 {
 				full = fmt.Sprintf("at most %d deviations", tp.fullBound)
 			}
-			return fmt.Sprintf("(A) every string with 0..%d symbols over {%s} and 1..%d symbols over {%s}, rendered with minimal escapes (only \\ { }) and with every character escaped, alone and as `E{0}E{k}`, must evaluate to the string; (B) expression trees f(args)/g(args) with 1..3 arguments over leaves {a, \"b c\", \"\", {0}, {1}, {k}, p{1}} and, below f, calls g(1..2 leaves); printed with every combination of argument separator {%s}, optional quoting of words, lookups and quote-free calls, leading/trailing blank inside the braces, and literal neighbours (`xTy {1}{0}`): all combinations for depth-1 trees (three arguments: %s) and depth-2 trees with one argument, at most %d non-default choices for depth-2 trees with 2 arguments and one inner call, at most %d for 2 arguments/two inner calls, at most %d for 3 arguments/one inner call, 3 arguments with more inner calls: %s; evaluated with recording functions in a private KeyBuilder (optimisation on and off) against the value of the tree; (C) every single-character deletion and every insertion of one of {%s} at every position of the plain print of the depth-1 trees (prints with at most %d non-default choices) and, in the thorough tier, of the depth-2 trees with at most 2 arguments, judged by the reference reading; (D) every string with 0..%d symbols over {%s} and the strings with a tab among 1..%d symbols over {%s}, judged by the reference reading (value / must be a compile error / not settled); no panic anywhere. non-trivial = (A) non-empty string evaluated, (B) compiled and compared, (C,D) the reference reading settles the template (value or must-error) [D: and it contains a statement]",
-				tp.litLen, show(tp.litAlphabet), tp.litLen2, show(tp.litAlphabet2), show(tp.seps), d1, tp.b21, tp.b22, tp.b31, full, show(tp.mutIns), tp.mutBound, tp.rawLen, show(tp.rawAlphabet), tp.rawLen2, show(tp.rawAlphabet2))
+			return fmt.Sprintf("(A) every string with 0..%d symbols over {%s} and 1..%d symbols over {%s}, rendered with minimal escapes (only \\ { }) and with every character escaped, alone and as `E{0}E{k}`, must evaluate to the string; (B) expression trees f(args)/g(args) with 1..3 arguments over leaves {a, \"b c\", \"\", {0}, {1}, {k}, p{1}} and, below f, calls g(1..2 leaves); printed with every combination of argument separator {%s}, optional quoting of words, lookups and quote-free calls, leading/trailing blank inside the braces, and literal neighbours (`xTy {1}{0}`): all combinations for depth-1 trees (three arguments: %s) and depth-2 trees with one argument, at most %d non-default choices for depth-2 trees with 2 arguments and one inner call, at most %d for 2 arguments/two inner calls, at most %d for 3 arguments/one inner call, 3 arguments with more inner calls: %s; evaluated with recording functions in a private KeyBuilder (optimisation on and off) against the value of the tree; (C) every single-character deletion and every insertion of one of {%s} at every position of the plain print of the depth-1 trees (prints with at most %d non-default choices) and, in the thorough tier, of the depth-2 trees with at most 2 arguments, judged by the reference reading; (E) trees whose leaves need escaping inside call arguments or are unquoted non-ASCII words: leaves {c\\d, C:\\\\temp\\new, o{p}, l<LF>m, <TAB>z<CR>, q\"r, 's t', \\\"\\{\\ \\n, voilà, Ångström, Škoda, 😅🤠, é, {voilà}, {Å}, {Š😅}, {1}, w\\{0}, {k}<LF>{{à}} (UTF-8 encodings containing the bytes 0x85/0xA0, a 4-byte rune); trees: each lookup alone, f(x), f(g(x)), f(g(f(x))), f(x,y), f(g(x),y), f(y,g(x)), f(g(x,y)) for all leaves x,y; printed by applying, for every enclosing pass (template scan, argument split, argument compilation: 2d+1 passes at call depth d), the inverse of that pass to all text that is not syntax of that level; every combination of quoted/unquoted per argument, blank/tab separators, control characters raw or as \\n \\t \\r, and literal neighbours `\\\\T\\{{0}` (depth-2 trees with two leaves: %s); must evaluate to the tree value; (D) every string with 0..%d symbols over {%s} and the strings with a tab among 1..%d symbols over {%s}, judged by the reference reading (value / must be a compile error / not settled); no panic anywhere. non-trivial = (A) non-empty string evaluated, (B,E) compiled and compared, (C,D) the reference reading settles the template (value or must-error) [D: and it contains a statement]",
+				tp.litLen, show(tp.litAlphabet), tp.litLen2, show(tp.litAlphabet2), show(tp.seps), d1, tp.b21, tp.b22, tp.b31, full, show(tp.mutIns), tp.mutBound, eb, tp.rawLen, show(tp.rawAlphabet), tp.rawLen2, show(tp.rawAlphabet2))
 		},
 		Assumptions: func(string) []string {
 			return []string{
 				"recording functions f and g accept any number of arguments and return name(arg|arg|...); the context returns <mN> for group N and <k:name> for key name",
 				"the statement does not settle: a backslash inside a statement or as the last character, a closing brace outside a statement, a quote in the middle of a word or text directly after a closing quote, an unterminated quote, quoted text with unbalanced braces, a statement whose only argument is quoted or braced, a quoted or braced function name, +N or more than 9 digits as an integer; only 'no panic' is demanded for templates containing these",
-				"generated quoted leaves contain blanks but none of { } \" \\; a call is printed inside quotes only when it contains no quotes (quotes do not nest)",
+				"inside statements an escape is consumed once per pass that reads the text (scan of the enclosing template, split into arguments, compilation of the argument as a template; DESIGN §6 'an escape is consumed once per nesting level'); part E prints with the inverse of exactly these passes and demands the tree value",
+				"parts B-D: generated quoted leaves contain blanks but none of { } \" \\; a call is printed inside quotes only when it contains no quotes (quotes do not nest)",
 			}
 		},
 		Worker:         worker,
